@@ -8,6 +8,8 @@ package main
 // out: dec=err | enc=ok | enc=bad:<first failing component>
 // op:  tx <era> <description> <hex of a standalone transaction>   (ledger.NewTransactionFromCbor)
 // out: dec=err | dec=ok tx=<span>|B<span> W<span> M<span|-> O<span>,... h=<ok|bad> enc=<ok|bad>
+// op:  body <era> <description> <hex of a standalone transaction body>  (ledger.NewTransactionBodyFromCbor)
+// out: dec=err | dec=ok body=<span> O<span>,... h=<ok|bad>
 // op:  hdr <era> <description> <hex of a standalone block header>  (ledger.NewBlockHeaderFromCbor)
 // out: dec=err | dec=ok hdr=<span> h=<ok|bad> enc=<ok|bad>
 //
@@ -114,7 +116,7 @@ func fieldPtr(obj any, name string) any {
 
 func runC01(op string) string {
 	f := strings.Fields(op)
-	if len(f) == 4 && (f[0] == "tx" || f[0] == "hdr") {
+	if len(f) == 4 && (f[0] == "tx" || f[0] == "hdr" || f[0] == "body") {
 		return g10bRunStandalone(f)
 	}
 	encKind := ""
@@ -261,6 +263,24 @@ func g10bGenStandalone(r *Rand, n int, emit func(string)) {
 		if r.Chance(1, 4) {
 			kind = "hdr"
 			node = root.kid(0)
+		} else if f.era != "byron" && r.Chance(1, 3) {
+			// standalone transaction body (Byron has no body decoder)
+			kind = "body"
+			var bodies *bnode
+			if f.era == "dijkstra" {
+				if t := root.kid(1).kid(1); t != nil && len(t.kids) > 0 {
+					bodies = &bnode{major: 4}
+					for _, tx := range t.kids {
+						bodies.kids = append(bodies.kids, tx.kid(0))
+					}
+				}
+			} else {
+				bodies = root.kid(1)
+			}
+			if bodies == nil || len(bodies.kids) == 0 {
+				continue
+			}
+			node = bodies.kids[r.Intn(len(bodies.kids))]
 		} else {
 			ntx := 0
 			switch f.era {
@@ -345,6 +365,31 @@ func g10bRunStandalone(f []string) string {
 	tt, ok := g10bTxType[era]
 	if !ok {
 		return "bad-op"
+	}
+	if f[0] == "body" {
+		body, err := ledger.NewTransactionBodyFromCbor(tt, data)
+		if err != nil {
+			return "dec=err"
+		}
+		var sb strings.Builder
+		fmt.Fprintf(&sb, "dec=ok body=%s O", spanOrBad(data, root, body.Cbor()))
+		var on []*bnode
+		if o := root.mapGet(1); o != nil {
+			on = o.kids
+		}
+		outs := body.Outputs()
+		if len(outs) != len(on) {
+			fmt.Fprintf(&sb, "!n%d", len(outs))
+		} else {
+			for j, o := range outs {
+				if j > 0 {
+					sb.WriteByte(',')
+				}
+				sb.WriteString(spanOrBad(data, on[j], o.Cbor()))
+			}
+		}
+		fmt.Fprintf(&sb, " h=%s", okbad(body.Id() == sum256(data)))
+		return sb.String()
 	}
 	tx, err := ledger.NewTransactionFromCbor(tt, data)
 	if err != nil {
